@@ -196,6 +196,13 @@ def floor(tier):
                    ((0, 3), (6, 3)), ((3, 0), (3, 6))], tags2=True))        # box crossed by a cross
     F_.append(_mk([((0, 0), (6, 5)), ((0, 5), (6, 0)), ((0, 1), (5, 6)), ((1, 0), (2, 6)),
                    ((6, 1), (0, 4)), ((3, 0), (4, 6)), ((0, 2), (6, 3)), ((2, 6), (6, 2))]))
+    # long thin configurations: properly crossing segments that are nearly parallel
+    # (|sin| ~ 1e-3 .. 1e-5, far above the code's tolerance)
+    F_.append(_mk([((0, 0), (1000, 1)), ((0, 1), (1000, 0))]))
+    F_.append(_mk([((0, 0), (100000, 1)), ((0, 1), (100000, 0))]))
+    F_.append(_mk([((0, 0), (100000, 2)), ((0, 1), (100000, 0)), ((50000, -3), (50000, 3))],
+                  tags2=True))
+    F_.append(_mk([((0, 0), (3, 100000)), ((1, 0), (0, 100000)), ((0, 50000), (3, 50001))]))
     return F_
 
 
